@@ -35,7 +35,7 @@ Qed.
 
 Lemma difference_okA ea heads lb ni k v :
   difference ea heads lb = Some ni -> In (k, v) ni ->
-  oget ea k = Some v /\ ohas (l_entries lb) k = false /\ e_logid v = l_id lb.
+  oget ea k = Some v /\ ohas (l_entries lb) k = false /\ e_logid v = l_id lb /\ e_hash v = k.
 Proof.
   unfold difference. destruct (_ || _); [intros H; injection H as <-; intros []|].
   intros H Hin. apply diff_loop_spec in H. destruct H as [_ B]. apply B in Hin. exact (proj2 Hin).
@@ -55,7 +55,7 @@ Proof.
   apply fold_oset_In in Hin. destruct Hin as [Hin|[Hin Hk]]; [auto|]. right.
   rewrite forallb_forall in F. pose proof (F v Hin) as OKv.
   apply In_oslice in Hin. destruct Hin as [k' Hin].
-  destruct (difference_okA _ _ _ _ _ _ D Hin) as [G [_ L]]. repeat split; eauto.
+  destruct (difference_okA _ _ _ _ _ _ D Hin) as [G [_ [L _]]]. repeat split; eauto.
 Qed.
 
 (* self join / foreign id: nothing happens at all *)
